@@ -550,6 +550,95 @@ fn fam_raw_grid(ctx: &CaseCtx, cov: &mut Cov) -> CaseOut {
     out
 }
 
+/// raw decoders used several times (with and without reset in between) on hostile
+/// inputs: a failed or half-finished decode must not leave a state that makes a
+/// later call panic, spin or balloon
+fn fam_raw_history(ctx: &CaseCtx, cov: &mut Cov) -> CaseOut {
+    let mut out = CaseOut::default();
+    let mut rng = ctx.rng();
+    let lzma2 = rng.chance(1, 2);
+    let steps = rng.range(2, 6);
+    let sink = SharedSink::counting_only();
+    sink.0.borrow_mut().cap = Some(SINK_CAP);
+    let mut log: Vec<String> = Vec::new();
+    let mut total_in = 0u64;
+    if lzma2 {
+        let mut d = Lzma2Decoder::new();
+        for _ in 0..steps {
+            let c = loop {
+                let c = gen_case(&mut rng, ctx.tier);
+                if c.entry == 1 || c.entry == 5 {
+                    break c;
+                }
+            };
+            if rng.chance(1, 3) {
+                let _ = sut::guarded(|| d.reset());
+                log.push("reset".into());
+            }
+            let hard = TICK_FACTOR * (c.data.len() as u64 + SINK_CAP) + TICK_CONST;
+            let obs = sut::new_obs(hard);
+            crate::alloc::reset();
+            let before = sink.len();
+            let r = sut::raw_lzma2_decompress(&mut d, &c.data, ReaderKind::Slice, &sink, &obs);
+            let peak = crate::alloc::usage().peak;
+            total_in += c.data.len() as u64;
+            log.push(format!("decompress({} bytes: {}) -> {}", c.data.len(), c.desc.chars().take(50).collect::<String>(), r.verdict.short().chars().take(50).collect::<String>()));
+            let m = Measured { verdict: r.verdict, ticks: obs.borrow().ticks, produced: sink.len() - before, consumed: r.consumed as u64, peak_heap: peak, biggest_alloc: 0, ctor_refused: false, sink_cap_hit: false };
+            let mut c2 = c.clone();
+            c2.entry = 5;
+            c2.desc = format!("raw Lzma2Decoder history: {}", log.join(" ; "));
+            judge(&c2, &m, &mut out, cov);
+            if !out.violations.is_empty() {
+                return out;
+            }
+        }
+    } else {
+        let lc = rng.below(9) as u32;
+        let lp = rng.below(5) as u32;
+        let pb = rng.below(5) as u32;
+        let dict = *rng.pick(&[1u32, 2, 64, 4096, u32::MAX]);
+        let mut d = match sut::raw_lzma_new(lc, lp, pb, dict, *rng.pick(&[None, Some(0u64), Some(20), Some(1 << 40)]), *rng.pick(&[None, Some(100usize)])) {
+            Ok(d) => d,
+            Err(_) => return out,
+        };
+        for _ in 0..steps {
+            let c = loop {
+                let c = gen_case(&mut rng, ctx.tier);
+                if c.entry == 4 || c.entry == 0 {
+                    break c;
+                }
+            };
+            let data: &[u8] = if c.entry == 0 && c.data.len() > 13 { &c.data[13..] } else { &c.data };
+            if rng.chance(1, 3) {
+                let arg = *rng.pick(&[None, Some(None), Some(Some(0u64)), Some(Some(33)), Some(Some(1 << 50))]);
+                let _ = sut::guarded(|| d.reset(arg));
+                log.push(format!("reset({:?})", arg));
+            }
+            let hard = TICK_FACTOR * (data.len() as u64 + SINK_CAP) + TICK_CONST;
+            let obs = sut::new_obs(hard);
+            crate::alloc::reset();
+            let before = sink.len();
+            let r = sut::raw_lzma_decompress(&mut d, data, ReaderKind::Slice, &sink, &obs);
+            let peak = crate::alloc::usage().peak;
+            total_in += data.len() as u64;
+            log.push(format!("decompress({} bytes) -> {}", data.len(), r.verdict.short().chars().take(50).collect::<String>()));
+            let m = Measured { verdict: r.verdict, ticks: obs.borrow().ticks, produced: sink.len() - before, consumed: r.consumed as u64, peak_heap: peak, biggest_alloc: 0, ctor_refused: false, sink_cap_hit: false };
+            let mut c2 = c.clone();
+            c2.entry = 4;
+            c2.data = data.to_vec();
+            c2.desc = format!("raw LzmaDecoder(lc{} lp{} pb{} dict {}) history: {}", lc, lp, pb, dict, log.join(" ; "));
+            judge(&c2, &m, &mut out, cov);
+            if !out.violations.is_empty() {
+                return out;
+            }
+        }
+    }
+    cov.name("raw_decoder_reuse_histories", 1);
+    let _ = total_in;
+    out.sample = Some(J::obj().set("entry", J::s(if lzma2 { "raw Lzma2Decoder history" } else { "raw LzmaDecoder history" })).set("calls", J::Arr(log.iter().map(|s| J::s(s.as_str())).collect())));
+    out
+}
+
 fn label(group: &str, i: u32) -> String {
     match group {
         "entry" => ENTRY[i as usize].to_string(),
@@ -575,7 +664,7 @@ pub fn monitor(tier: Tier) -> Monitor {
     Monitor {
         id: "C07",
         level: "exploration",
-        rule: "cases = (entry point in {lzma, lzma2, xz one-shot, Stream under random chunking, raw LzmaDecoder with constructor parameters from {0,1,2,4095,4096,2^32-1} x sizes {None,0,1,11,2^63} x lc/lp/pb incl. out-of-range, raw Lzma2Decoder}, options incl. memlimits and all size options, hostile bytes from 9 sources: uniformly random, random behind a valid prologue, valid streams with bit/byte mutations, 4/8-byte words replaced by extremes (0, 1, 2^31, 2^32-1, 2^63, ...), truncation / duplication / splicing, CRC-repaired structured field faults (C06 mutator), LZMA2 framing faults (C17 mutator), huge-dictionary/size announcements with no payload, C05/C08 inputs); monitors per execution: panic capture, logical step budget from Tick hooks (ticks <= 64 x (input + produced) + 4096), counting allocator with a non-storing sink capped at 64 MiB (peak heap <= 8 MiB + 8 x (consumed + produced)); both overflow-checked and release arithmetic; non-trivial = the Tick hook saw at least one loop iteration (the input got past the prologue checks); distinct by hash of (bytes, entry, options, constructor parameters, chunking)",
+        rule: "cases = (entry point in {lzma, lzma2, xz one-shot, Stream under random chunking, raw LzmaDecoder with constructor parameters from {0,1,2,4095,4096,2^32-1} x sizes {None,0,1,11,2^63} x lc/lp/pb incl. out-of-range, raw Lzma2Decoder, plus histories of 2-6 decompress calls with optional resets on one raw decoder}, options incl. memlimits and all size options, hostile bytes from 9 sources: uniformly random, random behind a valid prologue, valid streams with bit/byte mutations, 4/8-byte words replaced by extremes (0, 1, 2^31, 2^32-1, 2^63, ...), truncation / duplication / splicing, CRC-repaired structured field faults (C06 mutator), LZMA2 framing faults (C17 mutator), huge-dictionary/size announcements with no payload, C05/C08 inputs); monitors per execution: panic capture, logical step budget from Tick hooks (ticks <= 64 x (input + produced) + 4096), counting allocator with a non-storing sink capped at 64 MiB (peak heap <= 8 MiB + 8 x (consumed + produced)); both overflow-checked and release arithmetic; non-trivial = the Tick hook saw at least one loop iteration (the input got past the prologue checks); distinct by hash of (bytes, entry, options, constructor parameters, chunking)",
         assumptions: vec![
             "a raw constructor that panics on lc>8 / lp>4 / pb>4 (documented on the fields, asserted in validate()) has not accepted its parameters".into(),
             "8 MiB constant covers the 6.3 MiB literal table of lc+lp=12; factor 8 covers Vec doubling plus the XZ path holding window and block buffer at once".into(),
@@ -583,7 +672,8 @@ pub fn monitor(tier: Tier) -> Monitor {
         ],
         families: vec![
             Family { name: "raw_ctor_grid", count: 36 * 3 * tier.pick(4, 40), priority: true, enumerated: false, run: fam_raw_grid },
-            Family { name: "hostile", count: tier.pick(1_000_000, 40_000_000), priority: false, enumerated: false, run: fam_hostile },
+            Family { name: "raw_reuse_histories", count: tier.pick(40_000, 1_000_000), priority: false, enumerated: false, run: fam_raw_history },
+            Family { name: "hostile", count: tier.pick(600_000, 40_000_000), priority: false, enumerated: false, run: fam_hostile },
         ],
         label,
         floors,
